@@ -3,12 +3,15 @@ CONSTANTS
   Readers = {1, 2, 3, 4}
   Files = {1, 2, 3}
   K = 99
-  MaxQ = 3
+  MaxQ = 99
   ExclusiveHost = TRUE
   ChecksFlag = TRUE
   SyntheticWrite = TRUE
+  LastWins = TRUE
+  MaxDup = 3
+  MaxMeta = 0
   DeadlineMs = 30000
 SPECIFICATION TSpec
-INVARIANTS Isolation NoTornRead Frozen CancelledOnlyIfPending
+INVARIANTS Isolation NoTornRead Frozen CancelledOnlyIfPending NoIntermediate
 POSTCONDITION Accepted
 CHECK_DEADLOCK FALSE
